@@ -526,18 +526,18 @@ func init() {
 			js := []job{J("plugin/overloader", "VX_C18_ConnHistory", 1, 3, 0), J("plugin/overloader", "VX_C18_ConnHistory", 1, 3, 1), J("plugin/overloader", "VX_C18_ConnHistory", 2, 4, 0),
 				J("plugin/overloader", "VX_C18_ConnRace", 1), J("plugin/overloader", "VX_C18_ConnRace", 2),
 				J("plugin/overloader", "VX_C18_QPS", 2, 3), J("plugin/overloader", "VX_C18_QPS", 1, 1), J("plugin/overloader", "VX_C18_QPSSession", 1, 3, 0), J("plugin/overloader", "VX_C18_QPSSession", 2, 3, 1), J("plugin/overloader", "VX_C18_QPSRace", 1, 1, 1, 2), J("plugin/overloader", "VX_C18_QPSRace", 2, 2, 3, 2),
-				J("plugin/overloader", "VX_C18_QPSInvariant", 4), J("plugin/overloader", "VX_C18_SlotAfterCloseAndLoss", 1), J("plugin/overloader", "VX_C18_SlotWhileClosing", 1), J("plugin/overloader", "VX_C18_SlotWhileClosing", 2), J("plugin/overloader", "VX_C18_SlotAfterCloseAndLoss", 2),
+				J("plugin/overloader", "VX_C18_QPSInvariant", 4), J("plugin/overloader", "VX_C18_SlotAfterCloseAndLoss", 1), J("plugin/overloader", "VX_C18_LimitHistory", 4), J("plugin/overloader", "VX_C18_SlotWhileClosing", 1), J("plugin/overloader", "VX_C18_SlotWhileClosing", 2), J("plugin/overloader", "VX_C18_SlotAfterCloseAndLoss", 2),
 				J("plugin/overloader", "VX_C18_QPSSession", 1, 3, 0, 1), J("plugin/overloader", "VX_C18_QPSSession", 2, 3, 1, 1),
 				J("plugin/overloader", "VX_C18_HandlerQPS", 1, 3, 0), J("plugin/overloader", "VX_C18_HandlerQPS", 2, 3, 2), J("plugin/overloader", "VX_C18_HandlerQPS", 1, 3, 0, 1), J("plugin/overloader", "VX_C18_HandlerQPS", 2, 3, 2, 1), J("plugin/overloader", "VX_C18_UpdateLimits", 2, 1), J("plugin/overloader", "VX_C18_UpdateLimits", 3, 1), J("plugin/overloader", "VX_C18_UpdateLimits", 3, 2),
 				J("plugin/overloader", "VX_C18_DialSide", 0), J("plugin/overloader", "VX_C18_DialSide", 1)}
 			if tier == "thorough" {
-				js = append(js, J("plugin/overloader", "VX_C18_QPSInvariant", 7), J("plugin/overloader", "VX_C18_ConnHistory", 2, 5, 1), J("plugin/overloader", "VX_C18_ConnHistory", 1, 5, 1), J("plugin/overloader", "VX_C18_QPSRace", 3, 3, 4, 2))
+				js = append(js, J("plugin/overloader", "VX_C18_LimitHistory", 5), J("plugin/overloader", "VX_C18_QPSInvariant", 7), J("plugin/overloader", "VX_C18_ConnHistory", 2, 5, 1), J("plugin/overloader", "VX_C18_ConnHistory", 1, 5, 1), J("plugin/overloader", "VX_C18_QPSRace", 3, 3, 4, 2))
 			}
 			return js
 		},
 		assumptions: append(append([]string{}, rootAssume...), "time.Ticker never fires by itself: refill ticks are explicit calls of updateToken", "concurrency harnesses explore all schedules with <= 2 pre-emptions at sync/atomic operations (sequentially consistent)"),
 		explanation: "connection limit: solver-chosen histories of accepted/rejected/closed connections through the real ServeConn + overloader hooks; races: two concurrent PostAccept for the last slot and k concurrent take() against one refill tick explored over all schedules with <= 2 pre-emptions (schedule choices are decisions of the symbolic execution); rate limit: sequential take/refill arithmetic",
-		bounds:      "N <= 2, histories <= 4 (quick) / 5, 2 racing accepts, <= 5 takers + 1 tick, <= 2 pre-emptions; also: rate limit through a session with another header plugin after the overloader, inductive bucket step (limit <= 1000, 4 interval choices, 4/7 solver-chosen take/tick steps), per-handler limits, run-time lowering of the connection limit, slot accounting after Close+loss; rounds 5-6: per-handler limits for pushes",
+		bounds:      "N <= 2, histories <= 4 (quick) / 5 (incl. histories that switch the limit off, to 1 and to 2 at run time; a session being closed while its handler runs), 2 racing accepts, <= 5 takers + 1 tick, <= 2 pre-emptions; also: rate limit through a session with another header plugin after the overloader, inductive bucket step (limit <= 1000, 4 interval choices, 4/7 solver-chosen take/tick steps), per-handler limits, run-time lowering of the connection limit, slot accounting after Close+loss; rounds 5-6: per-handler limits for pushes",
 	})
 	registerCheck(&checkSpec{
 		id: "C13", dirs: []string{"."}, level: "other",
